@@ -41,6 +41,7 @@ class VfModelMegacomplex(Megacomplex):
     clp_labels: list[str]
     rates: list[ParameterType]
     index_dependent: bool = False
+    fortran: bool = False  # memory order of the returned matrix (megacomplexes are free to return either)
 
     def calculate_matrix(self, dataset_model, global_axis, model_axis, **kwargs):
         hook = _FAULT_HOOK[0]
@@ -58,6 +59,8 @@ class VfModelMegacomplex(Megacomplex):
                 m[:, j] = col_model(r, model_axis, 0.0, False)
         if _POISON[0]:
             m[...] = np.nan
+        if self.fortran:
+            m = np.asfortranarray(m)
         return list(self.clp_labels), m
 
     def finalize_data(self, dataset_model, dataset, is_full_model=False, as_global=False):
@@ -98,9 +101,9 @@ RATES = {"s1": 0.31, "s2": 1.13, "s3": 2.9, "s4": 0.07, "t1": 0.55, "t2": 1.9}
 LOCS = {"q1": 1.0, "q2": 3.0, "q3": 5.0}
 
 
-def mc_model(labels, index_dependent=False, rates=None):
+def mc_model(labels, index_dependent=False, rates=None, fortran=False):
     return {"kind": "model", "labels": list(labels), "rates": [RATES[l] if rates is None else rates[i] for i, l in enumerate(labels)],
-            "index_dependent": bool(index_dependent)}  # fmt: skip
+            "index_dependent": bool(index_dependent), "fortran": bool(fortran)}  # fmt: skip
 
 
 def mc_global(labels):
@@ -221,7 +224,7 @@ def build_model_dict(spec):
             md["megacomplex"][name] = {
                 "type": "vf-model-mc", "clp_labels": list(mc["labels"]),
                 "rates": [f"rate.{name}.{j+1}" for j in range(len(mc["rates"]))],
-                "index_dependent": mc["index_dependent"],
+                "index_dependent": mc["index_dependent"], "fortran": bool(mc.get("fortran", False)),
             }  # fmt: skip
         else:
             md["megacomplex"][name] = {
